@@ -8,9 +8,9 @@ git diff > /tmp/confirm_$ID$SUF.diff
 if ! diff -q <(git diff) $OUT/patch.diff >/dev/null; then echo "NOTE: patch.diff differs from worktree diff; using worktree diff"; cp /tmp/confirm_$ID$SUF.diff $OUT/patch.diff; fi
 ( cd /tmp && PYTHONPATH=$WT timeout 600 /venv/bin/python $OUT/demo.py >/tmp/confirm_$ID$SUF.with.txt 2>&1 ); W=$?
 TESTS=$(PYTHONPATH=$WT timeout 1800 /venv/bin/python -m pytest -q -p no:cacheprovider --timeout=900 -n 8 2>&1 | tail -1)
-git stash -q
+git apply -R /tmp/confirm_$ID$SUF.diff
 ( cd /tmp && PYTHONPATH=$WT timeout 600 /venv/bin/python $OUT/demo.py >/tmp/confirm_$ID$SUF.without.txt 2>&1 ); WO=$?
-git stash pop -q
+git apply /tmp/confirm_$ID$SUF.diff
 rm -f resulttable
 echo "ID=$ID$SUF demo_with_change_exit=$W demo_without_exit=$WO tests: $TESTS"
 if [ $W -ne 0 ] && [ $WO -eq 0 ] && echo "$TESTS" | grep -q "273 passed" && ! echo "$TESTS" | grep -q failed; then
